@@ -128,7 +128,12 @@ def run_mc(name, cfg=None, workers=8, timeout=3600, cases_out=None, coverage=Fal
             for line in out.split("\n"):
                 if line.startswith('"{'):
                     try:
-                        f.write(json.loads(line) + "\n")
+                        inner = json.loads(line)
+                        if inner.startswith('{"ops":'):          # one emitted behaviour = a session of operations
+                            for o in json.loads(inner)["ops"]:
+                                f.write(json.dumps(o) + "\n")
+                        else:
+                            f.write(inner + "\n")
                         ncases += 1
                     except Exception:
                         pass
